@@ -67,6 +67,10 @@ structure TsCfg (α : Type) where
   closing : Option (α → Bool)
   incl : Bool
 
+/-- `closing_mapper is not None and closing_mapper(item) is True` -/
+def TsCfg.closes {α} (c : TsCfg α) (x : α) : Bool :=
+  match c.closing with | some f => f x | none => false
+
 def tsExpired {α} (c : TsCfg α) (start last new : Int) : Bool :=
   (match c.active with | some a => decide (new ≥ start + a) | none => false) ||
   (match c.inactive with | some b => decide (new ≥ last + b) | none => false)
@@ -87,7 +91,7 @@ def tsStep {α} (c : TsCfg α) (st : TsSt) : Ev α → TsSt × List (Ev α) × L
         | some (s, l) => (s, l, [])
       if tsExpired c start last t then
         (upd st k.idx (some (some (t, t))), pre ++ [.done (ik k), .create (ik k), .next (ik k) x], [])
-      else if (match c.closing with | some f => f x | none => false) then
+      else if c.closes x then
         if c.incl then
           (upd st k.idx (some (some (t, t))), pre ++ [.next (ik k) x, .done (ik k), .create (ik k)], [])
         else
